@@ -2,6 +2,7 @@
 #![allow(clippy::too_many_lines, clippy::type_complexity)]
 
 pub mod engine;
+pub mod func;
 pub mod lab;
 pub mod refmodel;
 pub mod stream;
@@ -17,6 +18,10 @@ pub fn property(id: &str) -> Option<Box<dyn engine::Property>> {
         "C01" | "C11" | "C12" | "C13" | "C14" => {
             let id: &'static str = Box::leak(id.to_string().into_boxed_str());
             Some(Box::new(stream::props::StreamProp { id }))
+        }
+        "C15" | "C16" | "C17" | "C18" | "C19" => {
+            let id: &'static str = Box::leak(id.to_string().into_boxed_str());
+            Some(Box::new(func::props::FuncProp { id }))
         }
         _ => None,
     }
